@@ -5,7 +5,7 @@ import syntax
 
 
 def run_conv_property(R, prop, raw_cases, runner, term_fn, describe, key_fn, model_body, failed_holds,
-                      harness_features=None):
+                      harness_features=None, header=None):
     """raw_cases: dicts with target, src, entry (+ optional group_value, inner).  term_fn(case, result) -> Gallina."""
     binary, log = vlib.build_harness()
     if binary is None:
@@ -30,13 +30,14 @@ def run_conv_property(R, prop, raw_cases, runner, term_fn, describe, key_fn, mod
         except ValueError as e:
             R.violation("render-error", "cannot render case %s: %s" % (json.dumps(c), e),
                         {"case": c, "failed": "renderer"}, found_input=False)
-    bad, errors = vlib.coq_eval(prop, syntax.HEADER_CONV, terms, runner, shard=250)
+    header = header or syntax.HEADER_CONV
+    bad, errors = vlib.coq_eval(prop, header, terms, runner, shard=120)
     vlib.decide(R, terms, bad, errors,
                 describe=lambda i: describe(keep[i]),
                 model_body=model_body,
                 key_fn=lambda i: key_fn(keep[i], results[keep[i]["id"]]),
                 size_fn=lambda i: len(keep[i]["src"]) + 10 * keep[i].get("group_value", 0),
-                header=syntax.HEADER_CONV, results=results, cases=keep,
+                header=header, results=results, cases=keep,
                 failed_holds=failed_holds,
                 failed_agree="correspondence agree_conv (Exec/ConvCase.v)")
     outcomes = {"ok": 0, "err": 0, "panic": 0, "none": 0}
